@@ -432,7 +432,7 @@ func (c *Ctx) rulesC17ord() {
 				args := call.Call.Args
 				if len(args) > 0 {
 					last := args[len(args)-1]
-					if f := loadOfField(last); f != nil && f.Name() == "TrackedStates" {
+					if flowsFrom(last, func(v ssa.Value) bool { f := loadOfField(v); return f != nil && f.Name() == "TrackedStates" }) {
 						good = true
 					}
 				}
